@@ -1,7 +1,7 @@
 #!/bin/bash
 # refmatrix.sh <group> [base=/tmp/wtout3] — apply each behaviour-preserving patch to /repo, run every property's rules
 # (./check matrix), report any new failure (= false alarm), undo.
-G=$1; BASE=${2:-/tmp/wtout3}
+G=$1; BASE=${2:-/verif/benign}
 cd /verif; ./check setup >/dev/null 2>&1
 for p in $BASE/$G/patch_*.diff; do
   (cd /repo && git diff --quiet) || { echo "/repo not clean"; exit 2; }
